@@ -6,7 +6,9 @@ import (
 	"fmt"
 	"io"
 	"math/big"
+	"os"
 	"runtime"
+	"strconv"
 	"sort"
 	"strings"
 	"sync"
@@ -22,6 +24,11 @@ import (
 	"github.com/crate-crypto/go-ipa/common/parallel"
 	"github.com/crate-crypto/go-ipa/ipa"
 )
+
+var batchRepeat = func() int {
+	n, _ := strconv.Atoi(os.Getenv("VERIF_BATCH_REPEAT"))
+	return n
+}()
 
 var (
 	cfgOnce sync.Once
@@ -816,6 +823,26 @@ func opGrp(fails *[]string, prog string, batch bool) string {
 		}
 		err := banderwagon.BatchMapToScalarField(maps, valid)
 		assertf(fails, err == nil, "BatchMapToScalarField failed")
+		// stress repetitions (set by the concurrent modes): every repetition must reproduce the first result
+		for rep := 0; rep < batchRepeat; rep++ {
+			cb2 := banderwagon.ElementsToBytes(valid...)
+			ub2 := banderwagon.BatchToBytesUncompressed(valid...)
+			maps2 := make([]*fr.Element, len(valid))
+			for i := range maps2 {
+				maps2[i] = new(fr.Element)
+			}
+			_ = banderwagon.BatchMapToScalarField(maps2, valid)
+			same := true
+			for i := range valid {
+				if cb2[i] != cb[i] || ub2[i] != ub[i] || *maps2[i] != *maps[i] {
+					same = false
+				}
+			}
+			if !same {
+				assertf(fails, false, "batch helpers not reproducible under concurrent use (repetition %d)", rep)
+				break
+			}
+		}
 		for k, i := range validIdx {
 			bs[i] = hx(cb[k][:])
 			xy[i] = canonXYHex(ub[k][:])
